@@ -578,6 +578,15 @@ def build(interp_globals):
         return 0
 
     @model
+    def m_PyType_GenericAlloc(tp, nitems):
+        # only used for fresh CTrait objects (get_trait's instance-trait clone): a real, empty CTrait whose fields the
+        # interpreted trait_clone then fills through the bridge
+        from traits.ctrait import CTrait
+        if tp is CTrait:
+            return new(CTrait(0))
+        raise Unsupported("PyType_GenericAlloc for %r" % (tp,))
+
+    @model
     def m_PyDict_New():
         return new({})
 
